@@ -6,6 +6,7 @@ import (
 	"fmt"
 	"reflect"
 	"sync"
+	"unsafe"
 
 	protocol "github.com/hujm2023/go-sms-protocol"
 	"github.com/hujm2023/go-sms-protocol/cmpp"
@@ -148,6 +149,71 @@ func (h *history) keepTLVs(desc string, live any) {
 		}
 		return ""
 	}, func() { scribbleDeep(reflect.ValueOf(live)) })
+}
+
+// pointsInto reports the first byte slice or string reachable from v whose memory — spare capacity included, that
+// is the caller's too once it appends — overlaps the array behind buf. A decoded value may be empty and still hold
+// such a view (a zero-length option value cut out of the input): nothing within its length ever changes, an append does.
+func pointsInto(v reflect.Value, buf []byte, path string) string {
+	if cap(buf) == 0 {
+		return ""
+	}
+	full := buf[:cap(buf)]
+	lo := uintptr(unsafe.Pointer(&full[0]))
+	hi := lo + uintptr(len(full))
+	var walk func(v reflect.Value, path string) string
+	walk = func(v reflect.Value, path string) string {
+		switch v.Kind() {
+		case reflect.Ptr, reflect.Interface:
+			if !v.IsNil() {
+				return walk(v.Elem(), path)
+			}
+		case reflect.Struct:
+			for i := 0; i < v.NumField(); i++ {
+				if w := walk(v.Field(i), path+"."+v.Type().Field(i).Name); w != "" {
+					return w
+				}
+			}
+		case reflect.Map:
+			for it := v.MapRange(); it.Next(); {
+				if w := walk(it.Value(), fmt.Sprintf("%s[%v]", path, it.Key())); w != "" {
+					return w
+				}
+			}
+		case reflect.String:
+			if n := v.Len(); n > 0 {
+				str := v.String()
+				p := (*reflect.StringHeader)(unsafe.Pointer(&str)).Data
+				if p < hi && p+uintptr(n) > lo {
+					return fmt.Sprintf("%s (string of %d octets)", path, n)
+				}
+			}
+		case reflect.Slice:
+			if v.Type().Elem().Kind() == reflect.Uint8 {
+				if c := v.Cap(); c > 0 {
+					p := v.Pointer()
+					if p < hi && p+uintptr(c) > lo {
+						return fmt.Sprintf("%s (len %d, cap %d)", path, v.Len(), c)
+					}
+				}
+				return ""
+			}
+			for i := 0; i < v.Len(); i++ {
+				if w := walk(v.Index(i), fmt.Sprintf("%s[%d]", path, i)); w != "" {
+					return w
+				}
+			}
+		}
+		return ""
+	}
+	return walk(v, path)
+}
+
+// decodedOwnsMemory: the decoded value must not point into the input buffer (checked before the buffer is reused).
+func (h *history) decodedOwnsMemory(op string, result any, buf []byte) {
+	if w := pointsInto(reflect.ValueOf(result), buf, ""); w != "" {
+		h.fail("decoded-value-points-into-input/"+sigOf(op), "op #%d (%s): the decoded value's %s lies inside the %d-octet input buffer", h.ops, op, w, len(buf))
+	}
 }
 
 func trunc200(s string) string {
@@ -365,6 +431,7 @@ func (h *history) step() bool {
 			buf := pdus.RefEncode(st, v)
 			p := st.New()
 			if err := p.IDecode(buf); err == nil {
+				h.decodedOwnsMemory(op, p, buf)
 				h.keepPDU(op, st, p)
 			}
 			scribble(buf)
@@ -432,6 +499,7 @@ func (h *history) step() bool {
 			buf := pdus.RefEncode(t, v)
 			p := t.New()
 			if err := p.IDecode(buf); err == nil {
+				h.decodedOwnsMemory(op, p, buf)
 				h.keepPDU(op, t, p)
 			}
 			scribble(buf)
@@ -441,6 +509,7 @@ func (h *history) step() bool {
 			buf := pdus.RefEncode(t, v)
 			p, err := pdus.Dispatchers[t.Family](buf)
 			if err == nil && p != nil {
+				h.decodedOwnsMemory(op, p, buf)
 				h.keepPDU(op, t, p)
 				s := p.String()
 				scribble(buf)
@@ -465,6 +534,7 @@ func (h *history) step() bool {
 			if err == nil {
 				p := t.New()
 				if derr := p.IDecode(frame); derr == nil {
+					h.decodedOwnsMemory(op, p, frame)
 					h.keepPDU(op, t, p)
 				}
 				// the view dies here: the next arrival overwrites the connection buffer
@@ -512,18 +582,21 @@ func (h *history) step() bool {
 				buf := append([]byte(nil), raw...)
 				o, err := smgp.ParseOptions(buf)
 				if err == nil {
+					h.decodedOwnsMemory("smgp.ParseOptions", o, buf)
 					h.keepTLVs("smgp.ParseOptions", o)
 				}
 				scribble(buf)
 			case 1:
 				buf := append([]byte(nil), raw...)
 				o := smgp.ReadOptions(packet.NewPacketReader(buf))
+				h.decodedOwnsMemory("smgp.ReadOptions", o, buf)
 				h.keepTLVs("smgp.ReadOptions", o)
 				scribble(buf)
 			case 2:
 				buf := append([]byte(nil), raw...)
 				o, err := smpp.ReadTLVs(packet.NewPacketReader(buf))
 				if err == nil {
+					h.decodedOwnsMemory("smpp.ReadTLVs", o, buf)
 					h.keepTLVs("smpp.ReadTLVs", o)
 				}
 				scribble(buf)
@@ -572,6 +645,7 @@ func (h *history) step() bool {
 			buf := pdus.RefEncode(st, v)
 			p := st.New()
 			if err := p.IDecode(buf); err == nil {
+				h.decodedOwnsMemory(op, p, buf)
 				h.keepPDU(op, st, p)
 			}
 			scribble(buf)
